@@ -156,6 +156,44 @@ def run_tlc(module, cfg, workers=8, timeout=600, env=None, trace=None, simulate=
     return TlcResult(p.returncode, out, wall)
 
 
+def apalache_inductive(ctx, module, files, cinit, indinv, init="Init", indinit="IndInit", timeout=900, expect_fail=False):
+    """Unbounded safety with Apalache: Init => IndInv (length 0) and IndInv /\\ Next => IndInv' (length 1).
+    `files`: the specification files to copy into a scratch directory (Apalache writes next to them).
+    Returns True when both steps hold (or, with expect_fail, when the inductive step is refuted as required)."""
+    if not shutil.which("apalache-mc"):
+        ctx.assumptions.append("apalache-mc not available: the inductive check was skipped")
+        return None
+    d = ctx.path(f"apalache_{module}")
+    os.makedirs(d, exist_ok=True)
+    for f in files:
+        shutil.copy(os.path.join(SPEC, f), d)
+    res = []
+    steps = [("step", indinit, 1)] if expect_fail else [("base", init, 0), ("step", indinit, 1)]
+    for name, ini, length in steps:
+        t0 = time.time()
+        p = subprocess.run(["timeout", str(timeout), "apalache-mc", "check", f"--cinit={cinit}", f"--init={ini}", f"--inv={indinv}", f"--length={length}",
+                            "--out-dir=" + os.path.join(d, "out"), module + ".tla"], cwd=d, stdout=subprocess.PIPE, stderr=subprocess.STDOUT, text=True)
+        if p.returncode == 124:
+            raise ToolError(f"Apalache timed out on {module} ({name})")
+        ok = "The outcome is: NoError" in p.stdout
+        err = "The outcome is: Error" in p.stdout
+        if not ok and not err:
+            log(p.stdout[-3000:])
+            raise ToolError(f"Apalache failed on {module} ({name})")
+        res.append((name, ok, round(time.time() - t0, 1)))
+    ctx.cov["tlc_runs"].append({"name": f"apalache {module} {indinv}" + (" (must fail)" if expect_fail else ""), "kind": "inductive", "distinct": 0, "generated": 0, "depth": 1,
+                                "wall_s": sum(r[2] for r in res)})
+    if expect_fail:
+        good = not res[0][1]
+        log(f"[ind] Apalache {module}: inductive step of {indinv} " + ("refuted as required" if good else "HOLDS although it must fail"))
+        if not good:
+            raise ToolError(f"Apalache: the must-fail inductive check of {module} holds")
+        return True
+    good = all(r[1] for r in res)
+    log(f"[ind] Apalache {module}: Init => {indinv} and {indinv} /\\ Next => {indinv}' " + ("hold" if good else "FAIL") + f" ({sum(r[2] for r in res):.0f}s)")
+    return good
+
+
 def strip_nulls(v, keep=("payload",)):
     """JSON null has no TLA+ counterpart: drop null members, except the listed keys -> "null"."""
     if isinstance(v, dict):
